@@ -61,17 +61,31 @@ func c13mkplmn(name string) c13plmn {
 
 // ---- S-NSSAI ----
 
-func c13snssai(name string) (models.Snssai, []byte) {
+func c13snssai(name string) (models.Snssai, []byte) { return c13snssaiCase(name, false) }
+
+// c13snssaiCase: with mixed set, the SD text may use upper case for a..f (TS 29.571 pattern ^[A-Fa-f0-9]{6}$): one
+// chosen digit position, or all of them, is written in upper case when it is a letter. Used by the single-entry
+// harnesses (in lists it would multiply the paths of the hex decoder by 1.5 per digit).
+func c13snssaiCase(name string, mixed bool) (models.Snssai, []byte) {
 	sst := vrt.U8(name + "sst")
 	if vrt.Bool(name + "hasSD") {
 		sd := vrt.Bytes(name+"sd", 3)
-		return models.Snssai{Sst: int32(sst), Sd: c13hexOf(sd)}, []byte{sst, sd[0], sd[1], sd[2]}
+		txt := []byte(c13hexOf(sd))
+		if mixed {
+			up := vrt.Choose(name+"upper", 0, 7) // 0..5: that position, 6: none, 7: all
+			for i := range txt {
+				if (up == i || up == 7) && txt[i] >= 'a' {
+					txt[i] -= 'a' - 'A'
+				}
+			}
+		}
+		return models.Snssai{Sst: int32(sst), Sd: string(txt)}, []byte{sst, sd[0], sd[1], sd[2]}
 	}
 	return models.Snssai{Sst: int32(sst)}, []byte{sst}
 }
 
 func VH_C13_snssai_to_nas() {
-	s, val := c13snssai("")
+	s, val := c13snssaiCase("", true)
 	out := SnssaiToNas(s)
 	vrt.Assert(len(out) == 1+len(val) && out[0] == byte(len(val)), "S-NSSAI: length octet then SST [SD]")
 	vrt.Equal(out[1:], val, "S-NSSAI value = SST [SD]")
@@ -80,11 +94,15 @@ func VH_C13_snssai_to_nas() {
 	n.Len = uint8(len(val))
 	copy(n.Octet[:], val)
 	back := SnssaiToModels(&n)
-	vrt.Assert(back.Sst == s.Sst && back.Sd == s.Sd, "SnssaiToModels recovers SST and SD")
+	wantSd := ""
+	if len(val) == 4 {
+		wantSd = c13hexOf(val[1:4])
+	}
+	vrt.Assert(back.Sst == s.Sst && back.Sd == wantSd, "SnssaiToModels recovers SST and SD (lower-case hex)")
 }
 
 func VH_C13_rejected_snssai() {
-	s, val := c13snssai("")
+	s, val := c13snssaiCase("", true)
 	cause := vrt.U8("cause") & 15
 	out := RejectedSnssaiToNas(s, cause)
 	vrt.Assert(len(out) == 1+len(val) && out[0] == byte(len(val))<<4|cause, "rejected S-NSSAI: length nibble | cause nibble")
